@@ -42,7 +42,7 @@ def model(tier):
         out["transitions"] += r["generated"]
         out["runs"].append({"endpoints": eps, "history_length": hist, "states": r["distinct"]})
     devs = {}
-    for d in ("ContactsBeforeKey", "EabReRegisterSkipsContacts"):
+    for d in ("ContactsBeforeKey", "EabReRegisterSkipsContacts", "KeyHashSavedWithContacts", "ReRegisterClaimsContacts"):
         r = tlc.model_check("Account", MC_CFG % (tlc.tla_set(LABELS), '{"%s"}' % d, '"A","B"', 6), "C11_dev", workers=4, timeout=600)
         devs[d] = bool(r["violated"])
         if not r["violated"]:
@@ -104,6 +104,13 @@ class Hist:
                 steps += [("call", runner([])), ("run", {"attempts": 1})]
             elif k == "renew":
                 steps += [("call", runner([certs_by_ep[op[1]]])), ("run", {"attempts": 1})]
+            elif k == "refuse":
+                # the CA answers its next account-update requests on op[1] with an error of its own
+                def setr(sc, e=op[1], typ=op[2]):
+                    ca = sc.cas[e]
+                    with ca.mu:
+                        ca.script = [{"kind": "account", "nth": ca.kind_count.get("account", 0) + 1, "repeat": 1, "fault": "acme:" + typ}]
+                steps.append(("call", setr))
             elif k == "forget":
                 steps.append(("call", (lambda e: (lambda sc: sc.cas[e].forget_account()))(op[1])))
         eps = {e: {"ca": {"eab_keys": dict(self.eab_keys)}} for e in EPS}
@@ -131,11 +138,17 @@ def histories(tier, seed):
         [("renew", "A"), ("key", "ecdsa_p384"), ("restart",), ("key", "ecdsa_p256"), ("restart",), ("renew", "A")],
         [("renew", "A"), ("renew", "B"), ("renew", "C"), ("contacts", c3), ("renew", "B"), ("key", "ed448"), ("renew", "C"), ("renew", "A")],
         [("restart",), ("restart",), ("renew", "A"), ("restart",), ("renew", "A")],
+        # the CA accepts the roll-over and refuses the contacts that come with it; later the contacts are acceptable
+        [("renew", "A"), ("both", ["refused@example.org"], "ecdsa_p384"), ("refuse", "A", "invalidContact"), ("renew", "A"), ("renew", "A"), ("restart",), ("renew", "A")],
+        [("renew", "A"), ("renew", "B"), ("both", c2, "rsa2048"), ("refuse", "B", "unsupportedContact"), ("renew", "B"), ("restart",), ("renew", "B"), ("renew", "A")],
+        [("renew", "A"), ("contacts", c2), ("refuse", "A", "invalidContact"), ("renew", "A"), ("key", "ed25519"), ("renew", "A")],
+        # binding and contacts change together; the contacts update that follows the new registration is refused once
+        [("renew", "A"), ("contacts", c2), ("eab", "kidA"), ("refuse", "A", "invalidContact"), ("renew", "A"), ("renew", "A"), ("restart",), ("renew", "A")],
     ]
     for i, ops in enumerate(fixed):
         H.append(Hist("C11/f%02d" % i, ops, meta={"family": "fixed history"}))
     n = 150 if tier == "thorough" else 16
-    alphabet = ["contacts", "key", "both", "eab", "restart", "renew", "renew", "forget"]
+    alphabet = ["contacts", "key", "both", "eab", "restart", "renew", "renew", "forget", "refuse"]
     for i in range(n):
         ops = [("renew", "A")] if rng.random() < 0.5 else []
         kt = rng.choice(KEYS[:4])
@@ -153,6 +166,8 @@ def histories(tier, seed):
                 ops.append(("restart",))
             elif k == "renew":
                 ops.append(("renew", rng.choice(EPS[:2] if rng.random() < 0.8 else EPS)))
+            elif k == "refuse":
+                ops.append(("refuse", rng.choice(EPS[:2]), rng.choice(["invalidContact", "unsupportedContact", "unauthorized"])))
             else:
                 ops.append(("forget", rng.choice(EPS[:2])))
         ops.append(("renew", rng.choice(EPS[:2])))
@@ -201,6 +216,8 @@ def account_layer(x):
                 d = e.get("detail") or {}
                 st = (e.get("resp") or {}).get("status")
                 typ = e.get("resp_type") or ""
+                if e["kind"] == "account" and str(e.get("fault") or "").startswith("acme:"):
+                    out.append({"e": "CaRefused", "ep": e["ep"]})
                 if typ.endswith("accountDoesNotExist"):
                     out.append({"e": "CaUnknown", "ep": e["ep"]})
                 if e["kind"] == "newAccount":
